@@ -639,6 +639,17 @@ def long_tokens(ctx, res, binary=None, env=None, sanitizer=False):
                       ['xact', 'Sample'] + NOW))
     cases.append(Case('draft-auto-xact', '= /Checking/\n  (Budget)  $1\n2010/06/24 Sample\n  Expenses:Food  $100\n  Assets:Checking\n',
                       ['xact', 'Sample'] + NOW))
+    # roundto with an enormous number of places: 10^places is computed
+    for e in ('roundto(1.5, 3)', 'roundto(1.5, -3)', 'roundto(1.5, 100000)', 'roundto(-123.45, 2147483648)'):
+        cases.append(Case('roundto-huge-places', None, ['eval', e]))
+    # account("..").any / .all without an argument
+    for e in ('account("A").any', 'account("A").all', 'account("A").any()', 'account("A").all(1)', 'account("A").any(amount > 0)'):
+        cases.append(Case('expr-any-all-no-argument', j, ['reg', '-l', e] + NOW))
+    cases.append(Case('expr-any-all-no-argument', j + 'check account("A").all\n', ['bal'] + NOW))
+    # --by-payee with an account/payee rewrite
+    for extra in (['--account', 'payee'], ['--payee', 'account'], ['--account', 'payee', '--flat']):
+        cases.append(Case('by-payee-account-rewrite', j, ['bal', '--by-payee'] + extra + NOW))
+        cases.append(Case('by-payee-account-rewrite', j, ['reg', '--by-payee'] + extra + NOW))
     # options that reach through the temporary transaction of generated budget postings
     bj = '~ Monthly\n  Expenses:Rent  $550.00\n  Assets\n\n2020/01/15 p\n  Expenses:Rent  $500.00\n  Assets\n'
     for extra in (['--anon'], ['--account', 'payee'], ['--payee', 'account'], ['--pivot', 'tag'], []):
@@ -856,6 +867,89 @@ def reduce_case(ctx, case, want, budget=40, binary=None, env=None, sanitizer=Fal
         TIMEOUT = saved
 
 
+FRAME_RE = re.compile(r'(?:in |^#\d+\s+)((?:ledger::)[^\n(<]*(?:<[^\n]*?>)?[\w:~]*(?:\(anonymous namespace\)::[\w:~]+)?)')
+
+
+def norm_frame(f):
+    f = re.sub(r'<[^<>]*>', '', f)
+    f = re.sub(r'<[^<>]*>', '', f)
+    f = f.replace('(anonymous namespace)::', '').strip()
+    f = re.sub(r'\s+', '', f)
+    return f[:80]
+
+
+def frames_of(text):
+    """names of the stack frames (innermost first) whose function is in namespace ledger"""
+    out = []
+    for line in text.split('\n'):
+        m = re.match(r'\s*#\d+\s+(?:0x[0-9a-f]+ in )?(.*)', line)
+        if not m:
+            continue
+        body = m.group(1).replace('(anonymous namespace)', '@anon@')
+        if not (body.startswith('ledger::') or body.startswith('@anon@')):
+            continue
+        body = body.split('(')[0].split(' ')[0].replace('@anon@', '(anonymous namespace)')
+        out.append(norm_frame(body))
+    return out
+
+
+def locate(ctx, case, binary, env, want):
+    """innermost ledger:: function of a crash (gdb backtrace) or of a hang (attach after 1 s);
+    None when gdb is not available"""
+    gdb = shutil.which('gdb')
+    if not gdb:
+        return None
+    binary = binary or lib.ledger_bin()
+    env = env or lib.ledger_env()
+    args, d = materialise(ctx, case, 'loc')
+    cmd = [binary, '--init-file', '/dev/null'] + args
+    try:
+        if want == 'timeout':
+            p = subprocess.Popen(cmd, stdin=subprocess.PIPE, stdout=subprocess.DEVNULL, stderr=subprocess.DEVNULL, env=env, cwd=d)
+            try:
+                if case.stdin:
+                    p.stdin.write(case.stdin)
+                p.stdin.close()
+            except OSError:
+                pass
+            time.sleep(1.0)
+            if p.poll() is not None:
+                return None
+            # two samples: the deepest frame common to both stacks is the function that loops
+            rc, out1 = lib.sh([gdb, '-p', str(p.pid), '-batch', '-ex', 'bt 60'], timeout=30)
+            time.sleep(0.3)
+            rc, out2 = lib.sh([gdb, '-p', str(p.pid), '-batch', '-ex', 'bt 60'], timeout=30)
+            p.kill()
+            p.wait()
+            a, b = frames_of(out1)[::-1], frames_of(out2)[::-1]
+            common = None
+            for x, y in zip(a, b):
+                if x != y:
+                    break
+                common = x
+            return common
+        else:
+            rc, out = lib.sh([gdb, '-batch', '-ex', 'run', '-ex', 'bt 300', '--args'] + cmd,
+                             timeout=60, env=env, cwd=d, input=case.stdin or b'')
+            out = out[-200000:]
+        fr = frames_of(out)
+        if not fr:
+            return None
+        if len(fr) >= 250:
+            # stack exhaustion: name the recursion by the alphabetically first function of the cycle,
+            # whichever member of it happened to hit the guard page
+            top = fr[:60]
+            rep = sorted(f for f in set(top) if top.count(f) >= 2)
+            if rep:
+                return 'recursion:' + rep[0]
+        return fr[0]
+    except Exception as e:      # attribution is best effort
+        lib.log('C11: locate failed: %r' % (e,))
+        return None
+    finally:
+        shutil.rmtree(d, ignore_errors=True)
+
+
 def c_rerun(ctx, c, binary, env):
     run_cases(ctx, [c], 'rerun', binary, env)
     return c
@@ -893,9 +987,18 @@ def mutation(ctx, res, n, binary=None, env=None, sanitizer=False, tag='mut'):
             if want and want != 'error-with-status-0':
                 reduce_case(ctx, c, want, binary=binary, env=env, sanitizer=sanitizer)
                 vs = judge(c_rerun(ctx, c, binary, env), sanitizer) or vs
-            kind = line_kind(c.journal if isinstance(c.journal, bytes) else (c.journal or '').encode('latin-1'))
-            optsig = '+'.join(sorted(set(a for a in c.args[1:] if a.startswith('-') and a != '--now'))) or 'no-options'
-            vs = [(re.sub(r'mutant:(\w+)$', lambda m_: 'mutant:%s:%s:%s' % (m_.group(1), kind, optsig), k), d, o, r) for k, d, o, r in vs]
+            loc = None
+            if want and (want.startswith('signal') or want == 'timeout'):
+                loc = locate(ctx, c, binary, env, want)
+            elif want and want.startswith('sanitizer'):
+                fr = frames_of(c.result[2].decode('latin-1'))
+                loc = fr[0] if fr else None
+            if loc:
+                vs = [(re.sub(r'mutant:(\w+)$', 'mutant:at:' + loc.replace('\\', ''), k), d + ' in ' + loc, o, r) for k, d, o, r in vs]
+            else:
+                kind = line_kind(c.journal if isinstance(c.journal, bytes) else (c.journal or '').encode('latin-1'))
+                optsig = '+'.join(sorted(set(a for a in c.args[1:] if a.startswith('-') and a != '--now'))) or 'no-options'
+                vs = [(re.sub(r'mutant:(\w+)$', lambda m_: 'mutant:%s:%s:%s' % (m_.group(1), kind, optsig), k), d, o, r) for k, d, o, r in vs]
             add_violations(res, c, vs)
     for k, v in hist.items():
         res.count('mutant-outcome:' + k, v)
@@ -935,7 +1038,7 @@ def sanitizer_tier(ctx, res, sites):
         return
     res.extra['sanitizer_build_s'] = round(time.time() - t0, 1)
     env = lib.ledger_env({'ASAN_OPTIONS': 'detect_leaks=0:abort_on_error=0:allocator_may_return_null=1:detect_stack_use_after_return=0',
-                          'UBSAN_OPTIONS': 'print_stacktrace=0:halt_on_error=1'})
+                          'UBSAN_OPTIONS': 'print_stacktrace=1:halt_on_error=1'})
     sub = lib.Result()
     try:
         buffers(ctx, sub, sites, binary, env, sanitizer=True, compare=False)
@@ -943,7 +1046,7 @@ def sanitizer_tier(ctx, res, sites):
         long_tokens(ctx, sub, binary, env, sanitizer=True)
         periods_s = lib.Result()
         nesting_light(ctx, sub, binary, env)
-        mutation(ctx, sub, ctx.scale(0, 1500), binary, env, sanitizer=True, tag="smut")
+        mutation(ctx, sub, ctx.scale(0, 1000), binary, env, sanitizer=True, tag="smut")
     finally:
         if owned:
             shutil.rmtree(os.path.join(ctx.workdir, 'asan'), ignore_errors=True)
